@@ -257,13 +257,8 @@ def res_equal(a, b):
     return True
 
 
-NA_LIKE = {"'None'", "'nan'", "'NaN'", "'null'", "''", "'NA'", "'N/A'"}
-
-
 def classify(diffs, src_net, fmt):
     """all differences are +-inf cells read back as NaN (JSON) -> recorded finding"""
-    if fmt == "excel" and diffs and all(w.startswith("value:") and d.split(" vs ")[0] in NA_LIKE and d.split(" vs ")[1] in ("None", "nan") for _, w, d in diffs):
-        return "C20-excel-na-like-strings"
     if fmt.startswith("json") and diffs and all(w.startswith("value:") and d.split(" vs ")[0] in ("inf", "-inf", "np.float64(inf)", "np.float64(-inf)") and d.split(" vs ")[1] in ("nan", "np.float64(nan)", "None")
                                              for _, w, d in diffs):
         return "C20-json-inf-becomes-nan"
@@ -274,7 +269,7 @@ def run(ctx):
     rng = ctx.rng
     terms, keep = [], []
     tmp = ctx.workdir
-    n_nets = ctx.n(60, 700)
+    n_nets = ctx.n(48, 700)
     for it in range(n_nets):
         allow_sub = (it % 12 == 5)
         with warnings.catch_warnings():
@@ -337,6 +332,8 @@ def run(ctx):
             ctx.count("fmt_" + fmt)
             if fmt in ("excel", "sqlite"):
                 diffs = deep_compare(net, n3, 1e-9, strict_dtype=False, only_elements=True)
+                if fmt == "excel":      # an empty cell is Excel's missing value: '' cannot be represented
+                    diffs = [d for d in diffs if not (d[1].startswith("value:") and d[2] in ("'' vs None", "'' vs nan"))]
             else:
                 diffs = deep_compare(net, n3, 1e-14 if fmt != "pickle" else 0.0)
             if diffs:
